@@ -614,4 +614,7 @@ def teardown_rule(res, fx):
            key='OWN-ID|%s|cow-exact' % g.q.split('<')[0],
            message='ImmutableHashtablePool::GetRefStatus reports REF_STATUS_INLRUCACHE without an exact GetRefCount() == 2 test: a table that other DataNodes still share is modified in place, so one '
                    'session\'s subscription mark appears on (or disappears from) nodes it never subscribed to, and can outlive the session')
+    from . import srs_shared as SS
+    SS.subscribe_traversal_nofilter_rule(res, fx, 'TEARDOWN-PAIR')
+    SS.lameduck_same_end_rule(res, fx, 'TEARDOWN-PAIR')
     f = fx.fn1('muscle::ReflectServer::DisconnectSession', ) if fx.by_q.get('muscle::ReflectServer::DisconnectSession') else None
